@@ -1076,7 +1076,8 @@ func (s *SSEServer) sendSuccessResponse(requestID interface{}, result interface{
 	// Serialize full response.
 	fullResponseData, err := json.Marshal(response)
 	if err != nil {
-		s.logger.Errorf("Error encoding full response: %v", err)
+		// A result that cannot be encoded is a handler failure: answer with an internal error.
+		s.handleRequestError(fmt.Errorf("%w: %v", ErrResponseSerialization, err), requestID, session)
 		return
 	}
 
